@@ -7,12 +7,19 @@
    For a completely filled builder (m = n; this is what EliasFano::from_bits, SArray and
    PrefixSummedEliasFano always build) this is the documented n*floor(lg(u/n)) + 7n + 8192.
    The formula in n alone is FALSE for a partially filled builder (n < m): see the witness
-   `ef_partial_witness` at the end of the file. *)
-From Sucds Require Import Base.Res Spec.WordSpec Spec.BitSpec Spec.SeqSpec Spec.FormatSpec gen.SerialGen
-  Model.BitVector Model.Rank9 Model.DArray Model.EliasFano Model.SArray Model.Psef Model.Serial
+   `ef_partial_witness` at the end of the file.
+   Also here, because they need the construction lemmas of other developments (Proofs/SALemmas.v,
+   PSMain.v, DacsByteMain.v, DacsOptMain.v): the bounds for the values returned by
+   EliasFano::from_bits, SArray::from_bits (+ enable_rank), PrefixSummedEliasFano::from_slice,
+   DacsByte / DacsOpt::from_slice and WaveletMatrix<Rank9Sel>::new. *)
+From Sucds Require Import Base.Res Spec.WordSpec Spec.BitSpec Spec.SeqSpec Spec.DacSpec Spec.FormatSpec gen.SerialGen
+  Model.BitVector Model.Rank9 Model.DArray Model.EliasFano Model.SArray Model.Psef
+  Model.CompactVector Model.Dacs Model.Wavelet Model.Serial
   Proofs.ResLemmas Proofs.BVAbs Proofs.BVReads Proofs.BVReads2 Proofs.BVMut Proofs.BVHistory
-  Proofs.DABuild Proofs.EFRep Proofs.EFBuilder
+  Proofs.WordLemmas Proofs.R9Rank Proofs.R9Hints Proofs.DABuild Proofs.EFRep Proofs.EFBuilder Proofs.SALemmas Proofs.PSMain
+  Proofs.R9Main Proofs.CVRep Proofs.DacsLevels Proofs.DacsByteMain Proofs.DacsOptMain
   Proofs.SizeForms Proofs.SizeBV Proofs.SizeR9 Proofs.SizeDA.
+From Sucds Require Proofs.DP_Walk.
 From Coq Require Import ZArith ZifyN ZifyBool ZifyNat Lia.
 Ltac Zify.zify_post_hook ::= Z.div_mod_to_equations.
 Open Scope N_scope.
@@ -133,6 +140,27 @@ Proof.
     unfold ef_spec at 2. unfold da_spec. cbn [ef_high da_s0]. destruct rank; exact H.
 Qed.
 
+(* the same for any fill level, with the capacity recovered from the length of the high vector
+   (the form evaluated by the driver: Extract/Dispatch.v `bound_ok`, case DEF) *)
+Theorem size_eliasfano_driver u m b acc rank : 1 <= m -> m + 2 + u / 2 ^ low_len_of u m < 2 ^ 56 ->
+  efb_inv b acc u m ->
+  let e := ef_spec b rank in
+  let cap := da_num_bits (ef_high e) - 2 - N.shiftr u (ef_low_len e) in
+  cap = m /\
+  8 * size ty_EliasFano (v_ef e)
+  <= lenN acc * ef_low_len e + (match da_s0 (ef_high e) with Some _ => 11 | None => 7 end) * cap + 8192.
+Proof.
+  intros Hm Hcap I e cap.
+  assert (Ec : cap = m).
+  { unfold cap, e, ef_spec, da_spec, da_num_bits. cbn [ef_high ef_low_len da_bv].
+    rewrite (bi_hlen _ _ _ _ I), (bi_ll _ _ _ _ I), N.shiftr_div_pow2.
+    generalize (u / 2 ^ low_len_of u m). intro q. lia. }
+  split; [exact Ec|]. rewrite Ec. subst e.
+  pose proof (size_eliasfano_capacity u m b acc Hm Hcap I rank) as H.
+  rewrite (ef_spec_low_len u m b acc I). unfold ef_spec at 2. unfold da_spec. cbn [ef_high da_s0].
+  destruct rank; exact H.
+Qed.
+
 (* the wrappers add 17 bytes + the Option tag (SArray), nothing (PrefixSummedEliasFano) *)
 Lemma size_sarray_some s e : sa_ef s = Some e ->
   8 * size ty_SArray (v_sarray s) = 8 * size ty_EliasFano (v_ef e) + 144.
@@ -163,6 +191,354 @@ Proof.
   pose proof (size_eliasfano_capacity u n b xs Hn Hcap I false) as H. rewrite Hlen in H. exact H.
 Qed.
 
+(* ---------- EliasFano::from_bits: the builder is filled completely ---------- *)
+
+Lemma popfold_ok c : forall ws a, Forall (fun w => w < W) ws -> a + 64 * lenN ws < W ->
+  fold_res (fun acc w => add c acc (popcN w)) ws a = Ok (a + popsum ws).
+Proof.
+  induction ws as [|w ws IH]; intros a Hall Hb.
+  - cbn [fold_res popsum fold_right]. rewrite N.add_0_r. reflexivity.
+  - inversion Hall as [|w' ws' Hw Hws]; subst. rewrite lenN_cons in Hb.
+    pose proof (popcN_le_64 w Hw) as Hp.
+    cbn [fold_res]. rewrite add_ok by lia. cbn [bind]. rewrite IH by (try assumption; lia).
+    cbn [popsum fold_right]. fold (popsum ws). f_equal. lia.
+Qed.
+
+Section FromBits.
+Variables (bv : bitvec) (u m : N).
+Hypothesis Hwf : wf bv.
+Hypothesis Hcap : cap_ok bv.
+Hypothesis Eu : u = bv_len bv.
+Hypothesis Em : m = count true (bits_of bv).
+Hypothesis Hm : 1 <= m.
+Hypothesis Hcap1 : m + 2 + u / 2 ^ low_len_of u m < 2 ^ 56.
+Hypothesis Hcap2 : m * low_len_of u m < 2 ^ 56.
+Notation B := (bits_of bv).
+
+Lemma fb_u_lt : u < W.
+Proof. pose proof (cap_W bv Hcap). unfold W. lia. Qed.
+
+Definition fb_step (c : cfg) (b : efbuilder) (i : N) : res efbuilder :=
+  x <- BitVector.access c bv i ;; x <- unwrap x ;;
+  if x : bool then (r <- efb_push c b i ;; _ <- assert_ (snd r) ;; Ok (fst r)) else Ok b.
+
+Lemma fb_step_inv c b k b' : (k < length B)%nat ->
+  efb_inv b (positions true (firstn k B)) u m ->
+  fb_step c b (N.of_nat k) = Ok b' ->
+  efb_inv b' (positions true (firstn (S k) B)) u m.
+Proof.
+  intros Hk I E. pose proof (bits_of_length bv Hwf) as HL. pose proof (cap_W bv Hcap) as HcW.
+  assert (Hpos : positions true (firstn (S k) B)
+                 = positions true (firstn k B) ++ (if nth k B false then [N.of_nat k] else [])).
+  { rewrite (firstn_snoc false) by exact Hk. unfold positions. rewrite positions_from_app.
+    f_equal. rewrite N.add_0_l, lenN_firstn. cbn [positions_from].
+    replace (N.min (N.of_nat k) (lenN B)) with (N.of_nat k) by (unfold lenN; lia).
+    destruct (nth k B false); reflexivity. }
+  unfold fb_step, BitVector.access in E.
+  rewrite get_bit_spec in E by (try assumption; unfold W, lenN in *; lia). cbn [bind] in E.
+  unfold BitSpec.access in E.
+  destruct (N.ltb_spec (N.of_nat k) (lenN B)) as [_|H]; [|unfold lenN in H; lia].
+  rewrite Nat2N.id, (nth_error_nth' _ false Hk) in E. cbn [unwrap bind] in E.
+  rewrite Hpos. destruct (nth k B false).
+  - destruct (efb_push_spec u m fb_u_lt Hm Hcap1 Hcap2 c b _ (N.of_nat k) I) as [b1 [E1 [I1 _]]].
+    rewrite E1 in E. cbn [bind snd fst spec_apply] in E, I1.
+    destruct (efb_accepts u m (positions true (firstn k B)) (N.of_nat k)); cbn [snd fst assert_ bind] in E, I1.
+    + injection E as <-. exact I1.
+    + discriminate.
+  - injection E as <-. rewrite app_nil_r. exact I.
+Qed.
+
+Lemma fb_fold_inv c b0 : efb_inv b0 [] u m -> forall k b', (k <= length B)%nat ->
+  fold_res (fb_step c) (nseq (N.of_nat k)) b0 = Ok b' ->
+  efb_inv b' (positions true (firstn k B)) u m.
+Proof.
+  intros I0. induction k as [|k IH]; intros b' Hk E.
+  - change (nseq (N.of_nat 0)) with (@nil N) in E. cbn [fold_res] in E. injection E as <-. exact I0.
+  - rewrite nseq_succ, fold_res_app in E. apply bind_inv in E. destruct E as [b1 [E1 E2]].
+    cbn [fold_res] in E2. apply bind_inv in E2. destruct E2 as [b2 [E2 E3]]. injection E3 as <-.
+    apply (fb_step_inv c b1 k b2); [lia | apply IH; [lia | exact E1] | exact E2].
+Qed.
+
+Theorem ef_from_bits_shape c e : ef_from_bits c bv = Ok (Some e) ->
+  exists b, efb_inv b (positions true B) u m /\ lenN (positions true B) = m /\ e = ef_spec b false.
+Proof.
+  intro E. unfold ef_from_bits in E. pose proof (bits_of_length bv Hwf) as HL.
+  pose proof (cap_W bv Hcap) as HcW. pose proof (wf_nwords bv Hwf) as Hn.
+  destruct (N.eqb_spec (bv_len bv) 0) as [?|_]; [discriminate|].
+  rewrite popfold_ok in E by (try apply wf_all; try assumption; unfold W; lia).
+  cbn [bind] in E. rewrite N.add_0_l, <- (count_true_bits_of bv Hwf), <- Em, <- Eu in E.
+  destruct (N.eqb_spec m 0) as [?|_]; [lia|].
+  destruct (efb_new_ok u m fb_u_lt Hm Hcap1 Hcap2 c) as [b0 [E0 I0]].
+  rewrite E0 in E. cbn [bind unwrap] in E.
+  apply bind_inv in E. destruct E as [b [E1 E2]].
+  change (fold_res (fb_step c) (nseq u) b0 = Ok b) in E1.
+  assert (I : efb_inv b (positions true B) u m).
+  { replace u with (N.of_nat (length B)) in E1 by (unfold lenN in HL; lia).
+    pose proof (fb_fold_inv c b0 I0 (length B) b ltac:(lia) E1) as H.
+    rewrite firstn_all in H. exact H. }
+  exists b. split; [exact I|]. split.
+  - unfold positions. rewrite positions_from_len. symmetry. exact Em.
+  - rewrite (efb_build_spec u m b _ Hcap1 I c) in E2. cbn [bind] in E2. injection E2 as <-. reflexivity.
+Qed.
+
+Theorem size_ef_from_bits c e : ef_from_bits c bv = Ok (Some e) ->
+  ef_low_len e = low_len_of u m /\
+  8 * size ty_EliasFano (v_ef e) <= m * ef_low_len e + 7 * m + 8192.
+Proof.
+  intro E. destruct (ef_from_bits_shape c e E) as [b [I [Hl ->]]].
+  split; [apply (ef_spec_low_len u m b _ I)|].
+  rewrite (ef_spec_low_len u m b _ I).
+  pose proof (size_eliasfano_capacity u m b _ Hm Hcap1 I false) as H. rewrite Hl in H. exact H.
+Qed.
+End FromBits.
+
+(* ---------- capacity side conditions from a small universe ---------- *)
+
+Lemma ef_caps_small u m : 1 <= m -> m <= u -> u + 1 < 2 ^ 55 ->
+  m + 2 + u / 2 ^ low_len_of u m < 2 ^ 56 /\ m * low_len_of u m < 2 ^ 56.
+Proof. intros Hm Hmu Hu. exact (ef_cap_small u m Hm Hmu Hu). Qed.
+
+(* ---------- SArray::from_bits (+ enable_rank): the constructor fills the builder ---------- *)
+
+Definition sa_build_model (c : cfg) (bv : bitvec) (with_rank : bool) : res sarray :=
+  s0 <- sa_from_bv c bv ;; if with_rank then sa_enable_rank c s0 else Ok s0.
+
+Theorem size_sarray_built c bv with_rank s : wf bv -> cap_ok bv ->
+  (1 <= count true (bits_of bv) -> ef_cap (bv_len bv) (count true (bits_of bv))) ->
+  sa_build_model c bv with_rank = Ok s ->
+  let n := count true (bits_of bv) in
+  sa_has_rank s = with_rank /\
+  8 * size ty_SArray (v_sarray s)
+  <= n * low_len_of (bv_len bv) n + (if sa_has_rank s then 11 else 7) * n + 8192.
+Proof.
+  intros Hwf Hcap Hsc E n. unfold sa_build_model, sa_from_bv in E. cbv zeta in E.
+  rewrite (sa_popcount_ok c bv Hwf Hcap) in E. cbn [bind] in E. fold n in E.
+  destruct (N.eqb_spec n 0) as [Hz|Hnz]; cbn [negb bind] in E.
+  - assert (Hs : sa_ef s = None /\ sa_has_rank s = with_rank).
+    { destruct with_rank; [unfold sa_enable_rank in E; cbn [sa_ef bind sa_num_bits sa_num_ones] in E|];
+        injection E as <-; split; reflexivity. }
+    destruct Hs as [Hs Hr]. split; [exact Hr|]. rewrite (size_sarray_none s Hs). lia.
+  - assert (Hm : 1 <= n) by lia. destruct (Hsc Hm) as [Hcap1 Hcap2]. fold n in Hcap1, Hcap2.
+    set (u := bv_len bv) in *.
+    assert (Hu : u < W) by (pose proof (cap_W bv Hcap); unfold u, W; lia).
+    destruct (efb_new_ok u n Hu Hm Hcap1 Hcap2 c) as [b0 [E0 I0]].
+    destruct (push_ones_all bv u n Hwf Hcap eq_refl eq_refl Hu Hm Hcap1 Hcap2 c b0 I0) as [b [Ep I]].
+    rewrite E0 in E. cbn [bind unwrap] in E. rewrite Ep in E. cbn [bind] in E.
+    rewrite (efb_build_spec u n b _ Hcap1 I c) in E. cbn [bind] in E.
+    assert (Hl : lenN (positions true (bits_of bv)) = n) by (unfold positions; apply positions_from_len).
+    destruct with_rank.
+    + unfold sa_enable_rank in E. cbn [sa_ef sa_num_bits sa_num_ones bind] in E.
+      rewrite (ef_enable_rank_spec u n b _ Hcap1 I c) in E. cbn [bind] in E. injection E as <-.
+      split; [reflexivity|].
+      apply (size_sarray_full u n b _ _ Hm Hcap1 I Hl). reflexivity.
+    + injection E as <-. split; [reflexivity|].
+      apply (size_sarray_full u n b _ _ Hm Hcap1 I Hl). reflexivity.
+Qed.
+
+(* ---------- PrefixSummedEliasFano::from_slice ---------- *)
+
+Lemma ps_from_slice_eq c vals : vals <> [] ->
+  sum_list vals + 1 < W -> ef_cap (sum_list vals + 1) (lenN vals) ->
+  exists b, efb_inv b (psums 0 vals) (sum_list vals + 1) (lenN vals) /\
+            ps_from_slice c vals = Ok (Some {| ps_ef := ef_spec b false |}).
+Proof.
+  intros Hne Hsum [Hcap1 Hcap2]. set (u := sum_list vals + 1) in *. set (m := lenN vals) in *.
+  assert (Hm : 1 <= m).
+  { unfold m. destruct vals; [contradiction|]. rewrite lenN_cons. lia. }
+  destruct (efb_new_ok u m Hsum Hm Hcap1 Hcap2 c) as [b0 [E0 I0]].
+  destruct (ps_fold_ok u m Hsum Hm Hcap1 Hcap2 c vals b0 0 [] I0) as [b [Ef I]].
+  { unfold last_or. cbn [last_opt]. lia. }
+  { rewrite lenN_nil. fold m. lia. }
+  { fold (sum_list vals). unfold u. lia. }
+  cbn [app] in I. exists b. split; [exact I|].
+  unfold ps_from_slice. destruct vals as [|v0 vr]; [contradiction|].
+  rewrite fold_sum_ok by (fold (sum_list (v0 :: vr)); lia). cbn [bind].
+  fold (sum_list (v0 :: vr)). rewrite add_ok by exact Hsum. cbn [bind].
+  fold u. fold m. rewrite E0. cbn [bind].
+  change (fold_res _ (v0 :: vr) (b0, 0, true)) with (fold_res (ps_step c) (v0 :: vr) (b0, 0, true)).
+  rewrite Ef. cbn [bind negb]. rewrite (efb_build_spec u m b _ Hcap1 I c). reflexivity.
+Qed.
+
+Theorem size_psef_built c vals p :
+  sum_list vals + 1 < W -> ef_cap (sum_list vals + 1) (lenN vals) ->
+  ps_from_slice c vals = Ok (Some p) ->
+  ef_low_len (ps_ef p) = low_len_of (sum_list vals + 1) (lenN vals) /\
+  8 * size ty_PrefixSummedEliasFano (v_psef p)
+  <= lenN vals * ef_low_len (ps_ef p) + 7 * lenN vals + 8192.
+Proof.
+  intros Hsum Hc E.
+  assert (Hne : vals <> []) by (intro Hv; rewrite Hv in E; discriminate).
+  assert (Hm : 1 <= lenN vals) by (destruct vals; [contradiction | rewrite lenN_cons; lia]).
+  destruct (ps_from_slice_eq c vals Hne Hsum Hc) as [b [I Eq]]. destruct Hc as [Hcap1 Hcap2].
+  rewrite Eq in E. injection E as <-. cbn [ps_ef].
+  rewrite (ef_spec_low_len _ _ b _ I). split; [reflexivity|].
+  apply (size_psef_full _ _ b (psums 0 vals) _ Hm Hcap1 I); [apply psums_len | reflexivity].
+Qed.
+
+(* ---------- DACs: the constructors build levels of the shape assumed in Proofs/SizeR9.v ---------- *)
+
+Lemma fl_rel_plain flags ls : Forall2 fl_rel flags ls -> Forall r9_plain flags /\ length flags = length ls.
+Proof.
+  induction 1 as [|r l flags ls Hr Hrest [IH1 IH2]]; [split; [constructor | reflexivity]|].
+  split; [|cbn [length]; rewrite IH2; reflexivity].
+  constructor; [|exact IH1]. destruct Hr as [E [Hwf _]]. split; [exact E | exact Hwf].
+Qed.
+
+Theorem size_dacsbyte_built c vals d : Forall (fun x => x < W) vals -> lenN vals < 2 ^ 50 ->
+  db_from_slice c vals = Ok d ->
+  let levels := combine (db_data d) (map Some (db_flags d) ++ [None]) in
+  let tot := fold_left (fun acc (lv : list N * option r9sel) =>
+               let chunk := 8 * lenN (fst lv) in
+               let flag := match snd lv with Some f => r9_num_bits f | None => 0 end in
+               acc + 132 * (chunk + flag) + 204800) levels 0 in
+  100 * (8 * size ty_DacsByte (v_dacsbyte d)) <= tot + 12800.
+Proof.
+  intros HW Hlen E. destruct (db_from_slice_rep c vals HW Hlen) as [d' [E' [Hd Hf]]].
+  rewrite E' in E. injection E as <-.
+  destruct (fl_rel_plain _ _ Hf) as [Hp Hl].
+  apply size_dacsbyte_levels; [exact Hp|].
+  rewrite Hd, Hl, lv_chunks_length, lv_flags_length.
+  pose proof (byte_levels_range vals HW) as Hr. unfold byte_ws. rewrite repeat_length. lia.
+Qed.
+
+Lemma cv_rep_all data chunks : Forall2 cv_rep data chunks ->
+  Forall (fun v => exists xs, cv_inv v xs) data /\ length data = length chunks.
+Proof.
+  induction 1 as [|v xs data chunks Hv Hrest [IH1 IH2]]; [split; [constructor | reflexivity]|].
+  split; [|cbn [length]; rewrite IH2; reflexivity].
+  constructor; [|exact IH1]. exists xs. apply cv_rep_inv in Hv. exact (proj1 Hv).
+Qed.
+
+Theorem size_dacsopt_built c vals mlo d : Forall (fun x => x < W) vals -> lenN vals < 2 ^ 50 ->
+  do_from_slice c vals mlo = Ok (Some d) ->
+  let levels := combine (do_data d) (map Some (do_flags d) ++ [None]) in
+  let tot := fold_left (fun acc (lv : compvec * option r9sel) =>
+               let chunk := cv_len (fst lv) * cv_width (fst lv) in
+               let flag := match snd lv with Some f => r9_num_bits f | None => 0 end in
+               acc + 132 * (chunk + flag) + 204800) levels 0 in
+  100 * (8 * size ty_DacsOpt (v_dacsopt d)) <= tot + 12800.
+Proof.
+  intros HW Hlen E.
+  assert (Hml : 1 <= ml_of mlo <= 64).
+  { destruct (andb (1 <=? ml_of mlo) (ml_of mlo <=? 64)) eqn:Eb.
+    - apply andb_true_iff in Eb. destruct Eb as [E1 E2]. apply N.leb_le in E1. apply N.leb_le in E2. lia.
+    - rewrite (do_from_slice_reject c vals mlo Eb) in E. discriminate. }
+  destruct vals as [|v0 vr].
+  - rewrite (do_from_slice_nil c mlo Hml) in E. injection E as <-.
+    apply size_dacsopt_levels; cbn [do_default do_data do_flags].
+    + constructor; [|constructor]. exists []. exact cv_inv_default.
+    + constructor.
+    + reflexivity.
+  - set (vals := v0 :: vr) in *. assert (Hne : vals <> []) by discriminate.
+    destruct (do_from_slice_rep c vals mlo Hne HW Hlen Hml) as [d' [E' [Hd [Hw Hf]]]].
+    rewrite E' in E. injection E as <-.
+    destruct (fl_rel_plain _ _ Hf) as [Hp Hl]. destruct (cv_rep_all _ _ Hd) as [Hc Hl'].
+    apply size_dacsopt_levels; [exact Hc | exact Hp|].
+    rewrite Hl, Hl', lv_chunks_length, lv_flags_length.
+    assert (Hlen56 : lenN vals < 2 ^ 56).
+    { change (2 ^ 50) with 1125899906842624 in Hlen. change (2 ^ 56) with 72057594037927936. lia. }
+    pose proof (compute_opt_widths_value c vals (ml_of mlo) Hne ltac:(lia) ltac:(lia) HW Hlen56) as EV.
+    destruct (DP_Walk.compute_opt_widths_optimal c vals (ml_of mlo) Hne ltac:(lia) ltac:(lia) HW Hlen56)
+      as [ws [Ew [Adm _]]].
+    rewrite EV in Ew. injection Ew as <-.
+    apply admissible_unfold in Adm. destruct Adm as [[L1 _] _]. unfold lenN in L1. lia.
+Qed.
+
+(* ---------- WaveletMatrix<Rank9Sel>::new: every layer is a full Rank9Sel over n bits ---------- *)
+
+Lemma push_bit_shape c bv b bv' : wf bv -> bv_len bv + 1 < 2 ^ 56 -> push_bit c bv b = Ok bv' ->
+  wf bv' /\ bv_len bv' = bv_len bv + 1.
+Proof.
+  intros Hwf Hcap E. destruct (push_bit_spec c bv b Hwf Hcap) as [bv1 [E1 [Hwf1 Hb]]].
+  rewrite E1 in E. injection E as <-. split; [exact Hwf1|].
+  rewrite <- (bits_of_length bv1 Hwf1), Hb, lenN_app, (bits_of_length bv Hwf). reflexivity.
+Qed.
+
+Lemma wm_filter_shape c w sh nz no bv val st : wf bv -> bv_len bv + 1 < 2 ^ 56 ->
+  wm_filter c w sh (nz, no, bv) val = Ok st ->
+  wf (snd st) /\ bv_len (snd st) = bv_len bv + 1 /\
+  lenN (fst (fst st)) + lenN (snd (fst st)) = lenN nz + lenN no + 1.
+Proof.
+  intros Hwf Hcap E. unfold wm_filter in E.
+  apply bind_inv in E. destruct E as [t [_ E]].
+  apply bind_inv in E. destruct E as [bv' [Ep E]].
+  destruct (push_bit_shape c bv _ bv' Hwf Hcap Ep) as [Hwf' Hl'].
+  apply bind_inv in E. destruct E as [f [_ E]].
+  apply bind_inv in E. destruct E as [_ [_ E]].
+  destruct (N.land t 1 =? 1); injection E as <-; cbn [fst snd]; rewrite ?lenN_app, ?lenN_single;
+    (split; [exact Hwf' | split; [exact Hl' | lia]]).
+Qed.
+
+Lemma wm_filter_fold_shape c w sh : forall l nz no bv st, wf bv -> bv_len bv + lenN l < 2 ^ 56 ->
+  fold_res (wm_filter c w sh) l (nz, no, bv) = Ok st ->
+  wf (snd st) /\ bv_len (snd st) = bv_len bv + lenN l /\
+  lenN (fst (fst st)) + lenN (snd (fst st)) = lenN nz + lenN no + lenN l.
+Proof.
+  induction l as [|x l IH]; intros nz no bv st Hwf Hcap E.
+  - cbn [fold_res] in E. injection E as <-. cbn [fst snd]. rewrite lenN_nil.
+    split; [exact Hwf | split; lia].
+  - rewrite lenN_cons in *. cbn [fold_res] in E. apply bind_inv in E. destruct E as [[[nz1 no1] bv1] [E1 E2]].
+    destruct (wm_filter_shape c w sh nz no bv x _ Hwf ltac:(lia) E1) as [W1 [L1 C1]]. cbn [fst snd] in *.
+    destruct (IH nz1 no1 bv1 st W1 ltac:(lia) E2) as [W2 [L2 C2]].
+    split; [exact W2 | split; lia].
+Qed.
+
+Definition wm_layer_ok (n : N) (b : backing) : Prop := exists x, b = BRank9 x /\ r9_full n x.
+
+Lemma wm_layers_shape c w n : n < 2 ^ 56 -> forall fuel depth zeros ones layers R,
+  lenN zeros + lenN ones = n -> Forall (wm_layer_ok n) layers ->
+  wm_layers_build c KRank9 w fuel depth zeros ones layers = Ok R ->
+  Forall (wm_layer_ok n) R /\ lenN R = lenN layers + N.of_nat fuel.
+Proof.
+  intro Hn. induction fuel as [|fuel IH]; intros depth zeros ones layers R Hlen HL E.
+  - cbn [wm_layers_build] in E. injection E as <-. split; [exact HL | lia].
+  - cbn [wm_layers_build] in E.
+    apply bind_inv in E. destruct E as [t [_ E]]. apply bind_inv in E. destruct E as [sh [_ E]].
+    apply bind_inv in E. destruct E as [[[nz1 no1] bv1] [E1 E]].
+    apply bind_inv in E. destruct E as [[[nz no] bv] [E2 E]].
+    destruct (wm_filter_fold_shape c w sh zeros [] [] bv_empty _ wf_empty
+                ltac:(change (bv_len bv_empty) with 0; lia) E1) as [W1 [L1 C1]].
+    cbn [fst snd] in W1, L1, C1. change (bv_len bv_empty) with 0 in L1. change (lenN (@nil N)) with 0 in C1.
+    destruct (wm_filter_fold_shape c w sh ones nz1 no1 bv1 _ W1 ltac:(lia) E2) as [W2 [L2 C2]].
+    cbn [fst snd] in W2, L2, C2.
+    apply bind_inv in E. destruct E as [l [Eb E]].
+    assert (Hcap : cap_ok bv) by (unfold cap_ok; lia).
+    unfold b_build in Eb. rewrite (r9_build_ok c bv true true W2 Hcap) in Eb. cbn [bind] in Eb.
+    injection Eb as <-.
+    destruct (IH (depth + 1) nz no (layers ++ [BRank9 (r9_spec bv true true)]) R) as [F1 F2].
+    + lia.
+    + apply Forall_app. split; [exact HL|]. constructor; [|constructor].
+      exists (r9_spec bv true true). split; [reflexivity|].
+      split; [reflexivity | split; [exact W2 | cbn [r9_spec r9_bv]; lia]].
+    + exact E.
+    + split; [exact F1|]. rewrite F2, lenN_app, lenN_single. lia.
+Qed.
+
+Lemma wm_layers_unmap n R : Forall (wm_layer_ok n) R ->
+  exists layers, R = map BRank9 layers /\ Forall (r9_full n) layers.
+Proof.
+  induction 1 as [|b R [x [-> Hx]] _ [layers [-> Hl]]].
+  - exists []. split; [reflexivity | constructor].
+  - exists (x :: layers). split; [reflexivity | constructor; assumption].
+Qed.
+
+Theorem size_wavelet_r9_built c xs wm : lenN xs < 2 ^ 56 -> wm_new c KRank9 xs = Ok (Some wm) ->
+  100 * (8 * size ty_WaveletMatrix_Rank9Sel (v_wavelet wm))
+  <= wm_alph_width wm * (132 * lenN xs + 204800) + 12800.
+Proof.
+  intros Hn E. unfold wm_new in E. destruct xs as [|x0 xr]; [discriminate|].
+  set (xs := x0 :: xr) in *.
+  apply bind_inv in E. destruct E as [a [_ E]]. apply bind_inv in E. destruct E as [w [_ E]].
+  apply bind_inv in E. destruct E as [R [ER E]]. injection E as <-.
+  destruct (wm_layers_shape c w (lenN xs) Hn (N.to_nat w) 0 xs [] [] R) as [F1 F2].
+  - rewrite lenN_nil. lia.
+  - constructor.
+  - exact ER.
+  - destruct (wm_layers_unmap _ R F1) as [layers [-> Hl]].
+    unfold wm_alph_width. cbn [wm_layers]. rewrite lenN_map.
+    apply size_wavelet_r9_layers. exact Hl.
+Qed.
+
 (* ---------- the formula in n alone fails for a partially filled builder ---------- *)
 
 (* builder of capacity m = 4000 over u = 16000, nothing pushed (n = 0), then build:
@@ -184,5 +560,13 @@ Proof. vm_compute. reflexivity. Qed.
 
 Print Assumptions size_eliasfano_capacity.
 Print Assumptions size_eliasfano_full.
+Print Assumptions size_eliasfano_driver.
 Print Assumptions size_sarray_full.
 Print Assumptions size_psef_full.
+Print Assumptions ef_from_bits_shape.
+Print Assumptions size_ef_from_bits.
+Print Assumptions size_sarray_built.
+Print Assumptions size_psef_built.
+Print Assumptions size_dacsbyte_built.
+Print Assumptions size_dacsopt_built.
+Print Assumptions size_wavelet_r9_built.
